@@ -242,6 +242,10 @@ func (g *G) validationReply(atNs int64, st storedSpec) Reply {
 		}
 		if g.chance(0.2) {
 			h = append(h, [2]string{"Connection", "X-Hop"}, [2]string{"X-Hop", "h"})
+			if g.chance(0.5) {
+				// a second Connection field line names a second connection-specific field
+				h = append(h, [2]string{"Connection", "X-Hop2"}, [2]string{"X-Hop2", "h2"})
+			}
 		}
 		return Reply{Status: 304, Hdr: h, BodyFail: -1, DelayNs: pick(g, int64(0), 0, 1, sec)}
 	case 4, 5:
